@@ -15,7 +15,7 @@ META = {
             "(hence not depend on the form) and that of a hand-assembled reference circuit of the documented construction with k = ceil(pi/4 sqrt(N/M)) iterations, (ii) rank every solution above every non-solution, (iii) give the solutions total probability > 1/2, "
             "and (iv) decode_output of each solution string is the solution in the argument type. A form whose expressions do not denote S is "
             "skipped (C01's matter). Non-trivial = |S| >= 2 or a non-integer argument type; distinct = distinct (n, S, form).",
-    "bound": {"quick": "n=2,3 all sets (40), n=4 |S|<=2 (136); 7 forms x profiles", "thorough": "n=4 all 2516 sets, n=5 |S|<=2 (528 sets)"},
+    "bound": {"quick": "n=2,3 all sets (40), n=4 |S|<=2 (136); 12 forms (equalities, minterms, tables, tuples, lists, modular arithmetic; value search with int, falsy, bool and Qint-instance targets) x profiles", "thorough": "n=4 all 2516 sets, n=5 |S|<=2 (528 sets)"},
     "assumptions": ["svsim.sparse_run (cross-checked against the dense simulator) is the meaning of the circuit",
                     "the ideal oracle (X-conjugated MCX per solution) is the reference black box; n_matching=|S| and the default iteration count are used"],
     "explanation": "states = Grover instances built by the real constructor on a freshly compiled predicate; transitions = basis outcomes compared.",
@@ -45,7 +45,7 @@ def shards(tier):
     return out
 
 
-FORMS = ["eq", "dnf", "table", "tuple", "qlist", "value", "value_tuple", "value_zero", "pred_false"]
+FORMS = ["eq", "dnf", "table", "tuple", "qlist", "value", "value_tuple", "value_zero", "pred_false", "arith", "value_qint1", "value_qint2"]
 
 
 def cases(shard):
@@ -89,6 +89,15 @@ def source(n, S, form):
         # search g(x) == 0 (a falsy target value)
         tb = ", ".join("0" if r in S else str((1, 2, 3)[r % 3]) for r in range(N))
         return "def gfun(x: Qint[%d]) -> Qint[2]:\n    c = [%s]\n    return c[x]\n" % (n, tb), 0, "int"
+    if form == "arith":
+        # several expressions and recycled scratch qubits: modular subtraction compared with a constant
+        return "def tfun(x: Qint[%d]) -> bool:\n    return %s\n" % (n, " or ".join("(x - %d) < 1" % s for s in S)), None, "int"
+    if form in ("value_qint1", "value_qint2"):
+        # the searched value is given as a Qint instance whose bit string is not a palindrome
+        v = 1 if form == "value_qint1" else 2
+        others = [o for o in (0, 1, 2, 3) if o != v]
+        tb = ", ".join(str(v) if r in S else str(others[r % 3]) for r in range(N))
+        return "def gfun(x: Qint[%d]) -> Qint[2]:\n    c = [%s]\n    return c[x]\n" % (n, tb), v, "int"
     if form == "pred_false":
         # search the zeros of a predicate: Grover(f, False)
         return "def gfun(x: Qint[%d]) -> bool:\n    return not (%s)\n" % (n, " or ".join("x == %d" % s for s in S)), False, "int"
@@ -162,7 +171,11 @@ def run_case(case):
                 "counters": {"forms_not_denoting_S": 1}}
     bad = []
     try:
-        alg = Grover(qf, element, n_matching=len(S)) if element is not None else Grover(qf, n_matching=len(S))
+        elem_arg = element
+        if form.startswith("value_qint"):
+            from qlasskit import Qint2
+            elem_arg = Qint2(element)
+        alg = Grover(qf, elem_arg, n_matching=len(S)) if element is not None else Grover(qf, n_matching=len(S))
         dist, nq, ng = distribution(alg)
     except Exception as e:
         return {"status": "violation", "rows": 0, "nontrivial": True, "outcome": "raised",
